@@ -320,3 +320,29 @@ HEAP_HEADERS["C01X"] = ("From CppUVerif Require Import lib.CSem lib.CMem lib.CHe
                         "the parsed arguments are the ghost constants repeat / listing1..3 / reversing / shuffling / seed; the calls on the registry and the "
                         "output are ghost events; the TestResult of a repetition is not modelled here: its getFailureCount() / isFailure() after the "
                         "run take the next values of the ghost streams fcounts / isfails *)\n")
+
+# ------------------------------------------------------------------ C20 (second file): the service-message writers of TeamCityTestOutput
+TFL = "src/CppUTest/TestFailure.cpp"
+_G20 = [["evs", "list tev"], ["willruns", "list Z"]]
+_PE20 = {"print_event": ["TText", "TNum"]}
+_C20C = {"print": _PE20, "printEscaped": {"event": "TEsc {0}", "args": True}, "asCharString": {"recv_value": True},
+         "getName": {"recv_field": ["UtestShell", "name_"]}, "getGroup": {"recv_field": ["UtestShell", "group_"]},
+         "willRun": {"pop": "willruns"},
+         "getCurrentTestTotalExecutionTime": {"recv_field": ["TestResult", "currentTestTotalExecutionTime_"]},
+         "getTestNameOnly": {"recv_field": ["TestFailure", "testNameOnly_"]}, "getTestFileName": {"recv_field": ["TestFailure", "testFileName_"]},
+         "getFileName": {"recv_field": ["TestFailure", "fileName_"]}, "getMessage": {"recv_field": ["TestFailure", "message_"]},
+         "getTestLineNumber": {"recv_field": ["TestFailure", "testLineNumber_"]}, "getFailureLineNumber": {"recv_field": ["TestFailure", "lineNumber_"]},
+         "isOutsideTestFile": {"fn": "src_failure_isOutsideTestFile", "method": True},
+         "isInHelperFunction": {"fn": "src_failure_isInHelperFunction", "method": True},
+         "operator!=": "c_ne {0} {1}", "operator=": {"assign_opaque": True}}
+HEAP_RECORDS["C20"] = [["UtestShell", UTS], ["TestResult", TRS], ["TestFailure", TFL], ["TeamCityTestOutput", TC, "own"]]
+HEAP_GROUPS["C20"] = (
+    [dict(file=TFL, name="TestFailure::" + n, coq="src_failure_" + n, calls=_C20C, ghosts=_G20, opaque_classes=["SimpleString"]) for n in ["isOutsideTestFile", "isInHelperFunction"]] +
+    [dict(file=TC, name="TeamCityTestOutput::" + n, coq="src_teamcity_" + n, calls=_C20C, ghosts=_G20, opaque_classes=["SimpleString"]) for n in
+     ["printCurrentTestStarted", "printCurrentTestEnded", "printCurrentGroupStarted", "printCurrentGroupEnded", "printFailure"]])
+HEAP_HEADERS["C20"] = ("From CppUVerif Require Import lib.CSem lib.CMem lib.CHeap.\nLocal Open Scope Z_scope.\n"
+                       "(* translated by tools/cxx2heap.py: the five service-message writers of TeamCityTestOutput; a text (test name, group, file name, "
+                       "message: SimpleString members and the char* names of a test) is one opaque cell holding an integer that identifies it; "
+                       "print(\"literal\") / print(number) / printEscaped(text) are the ghost events TText / TNum / TEsc; the virtual test.willRun() takes "
+                       "the next value of the ghost stream willruns; the getters of UtestShell, TestResult and TestFailure read the fields they return *)\n"
+                       "Inductive tev := TText (s : string) | TNum (n : Z) | TEsc (text : Z).\n")
